@@ -397,6 +397,84 @@ def _abbr(v):
     return r if len(r) < 80 else r[:40] + '...%d...' % len(r) + r[-20:]
 
 
+def fault_unit(unit):
+    """A transient OS error at every file event of a file-backed store: the
+    store is rejected (key keeps what it held) or the value is intact."""
+    import diskcache as dc
+    from ..fault import FaultHook
+    _, mfs = unit
+    part = {'states': 0, 'transitions': 0, 'executions': 0, 'violations': [],
+            'outcomes': {}, 'samples': [], 'caps': [], 'label': 'fault/write'}
+    big = mfs + 40
+    cases = [
+        # iterating the value yields one chunk per line: three chunks each
+        ('bytes', fill(b'0123456789abcdef', big // 2) + b'\n' +
+         fill(b'fedcba', big // 2) + b'\nend', False),
+        ('str', fill('text \xe9', big // 2) + '\r\n' +
+         fill('more', big // 2) + '\nend', False),
+        ('pickle', ('q' * big, [1, 2]), False),
+        ('stream-2chunks', fill(b'S\x00\r\n', big), True),
+    ]
+    for label, value, stream in cases:
+        def mk():
+            if stream:
+                return Chunks([value[:len(value) // 2],
+                               value[len(value) // 2:]])
+            return value
+        root = run.fresh_dir('f')
+        ENV.reset(run.scratch())
+        cache = dc.Cache(root, disk_min_file_size=mfs)
+        hook = FaultHook(None)
+        ENV.hook = hook
+        try:
+            cache.set('k', mk(), read=stream)
+        finally:
+            ENV.hook = None
+        log = hook.log
+        cache.close()
+        run.drop(root)
+        part['states'] += 1
+        for i, (kind, _) in enumerate(log):
+            if kind == 'sql':
+                continue
+            for prior in (None, 'old'):
+                root = run.fresh_dir('f')
+                ENV.reset(run.scratch())
+                cache = dc.Cache(root, disk_min_file_size=mfs)
+                if prior:
+                    cache.set('k', prior)
+                hook = FaultHook((i, 'fail'))
+                ENV.hook = hook
+                try:
+                    r = call(cache.set, 'k', mk(), read=stream)
+                finally:
+                    hook.enabled = False
+                    ENV.hook = None
+                got = call(cache.get, 'k', 'ABSENT')
+                part['transitions'] += 1
+                part['executions'] += 1
+                ok = (same(got, value) if not isinstance(r, Raises)
+                      else (got == (prior or 'ABSENT') or same(got, value)))
+                key = '%s/%s' % (kind, 'rejected' if isinstance(r, Raises)
+                                 else 'stored')
+                part['outcomes'][key] = part['outcomes'].get(key, 0) + 1
+                if not ok:
+                    part['violations'].append({
+                        'signature': {'clause': 'altered-after-io-error',
+                                      'value': label, 'event': kind},
+                        'message': 'altered-after-io-error: storing %s (%d '
+                                   'items) with an OS error at event %d %r: '
+                                   'set -> %r, later get -> %s'
+                                   % (label, len(value), i, log[i], r,
+                                      _abbr(got)),
+                        'replay': {'engine': 'FAULT', 'module': 'props.c01',
+                                   'unit': list(unit), 'label': label,
+                                   'accessor': 'fault@%d' % i}})
+                cache.close()
+                run.drop(root)
+    return part
+
+
 def plan(tier):
     units = []
     for mfs in (0, 1, 16, 2 ** 15):
@@ -408,10 +486,17 @@ def plan(tier):
     return units
 
 
+def dispatch(unit):
+    if unit[0] == 'fault':
+        return fault_unit(unit)
+    return work(unit)
+
+
 def main(tier, seed):
     rep = run.Report('C01', tier, seed, TECHNIQUE)
     units = run.shuffled(plan(tier), seed)
-    for part in run.pmap(work, units):
+    units += [('fault', m) for m in (16, 2 ** 15)]
+    for part in run.pmap(dispatch, units):
         rep.merge(part, part.get('label'))
     rep.bounds = {
         'thresholds': [0, 1, 16, 32768],
@@ -421,6 +506,10 @@ def main(tier, seed):
                        'thorough; protocols {0,2,5}, level 1 for thresholds '
                        '!= 16 in quick)',
         'configs': len(units),
+        'faults': 'an OS error injected at every file event (mkdir, create, '
+                  'each write chunk, close) of storing a file-backed bytes / '
+                  'text / pickle / 2-chunk stream value, over an absent and '
+                  'a present key',
     }
     rep.assumptions = [
         'values outside the alphabet (other types, other lengths) are not '
@@ -433,7 +522,7 @@ def main(tier, seed):
 def replay(rp):
     run._worker_init()
     unit = tuple(rp['unit'])
-    part = work(unit)
+    part = dispatch(unit)
     hits = [v for v in part['violations']
             if v['replay']['label'] == rp['label']
             and v['replay']['accessor'] == rp['accessor']]
